@@ -141,7 +141,7 @@ class Unit:
             elif k == 'type':
                 sp = self.src(s.args[0]).find_type(s.args[1])
                 notes = Notes()
-                txt = apply_rules(sp.text, ['R8'], notes)
+                txt = apply_rules(sp.text, ['R8', 'R8b'], notes)
                 txt = self._apply_substs(txt, s, notes)
                 self.items.append(Item(s.args[1], 'type', txt, origin=sp.describe(), notes=notes))
             elif k == 'fn':
@@ -149,6 +149,10 @@ class Unit:
                 if canary:
                     c = self._build_fn(s, True)
                     self.items.append(c)
+            elif k == 'lift':
+                self.items.append(self._build_lift(s, False))
+                if canary:
+                    self.items.append(self._build_lift(s, True))
             elif k == 'census':
                 self.census.append(s)
             else:
@@ -195,6 +199,9 @@ class Unit:
             txt = re.sub(r'\bfn\s+' + re.escape(fn) + r'\b', 'fn ' + fn + '__canary', txt, count=1)
         if header is not None:
             h = re.sub(r'\s+', ' ', header.strip())
+            if canary and trait:
+                # the canary copy of a trait method lives in an inherent impl of the same type
+                h = re.sub(r'^(impl(?:\s*<[^>]*>)?)\s+.*?\sfor\s+', r'\1 ', h)
             body = '%s {\n    %s\n}' % (h, txt)
         else:
             body = txt
@@ -206,6 +213,78 @@ class Unit:
         if canary:
             it.verus_name += '__canary'
             it.label = qual + '__canary'
+        return it
+
+    def _build_lift(self, s, canary):
+        """R12: lift a block tail of a function (closure body / match arm) into a free function.
+        @@lift FILE [Type::]fn as=NAME props=..   with sub-directives
+           @from `anchor`      -- the lifted text starts AFTER the statement line containing the anchor and
+                                  runs to the end of the innermost enclosing block
+           @params (a: A, b: B) -> R
+        plus the usual @requires/@ensures/... weaving directives"""
+        rel, qual = s.args[0], s.args[1]
+        ty, fn = qual.rsplit('::', 1) if '::' in qual else (None, qual)
+        src = self.src(rel)
+        sp, header = src.find_fn(fn, ty, s.opt('trait'))
+        name = s.opt('as')
+        frm = params = None
+        for (nm, arg, lines, nth) in s.subs:
+            if nm == 'from':
+                frm = (_anchor(arg), nth)
+            elif nm == 'params':
+                params = arg
+        if not (name and frm and params):
+            raise ExtractError('@@lift needs as=, @from and @params')
+        txt = sp.text
+        mask = mask_text(txt)
+        pos = -1
+        start = 0
+        for _ in range(frm[1]):
+            pos = txt.find(frm[0], start)
+            if pos < 0:
+                raise ExtractError('@@lift anchor lost in %s: `%s`' % (qual, frm[0]))
+            start = pos + 1
+        # innermost enclosing block of pos
+        depth = 0
+        j = pos
+        bopen = -1
+        while j >= 0:
+            c = mask[j]
+            if c == '}':
+                depth += 1
+            elif c == '{':
+                if depth == 0:
+                    bopen = j
+                    break
+                depth -= 1
+            j -= 1
+        if bopen < 0:
+            raise ExtractError('@@lift: no enclosing block')
+        bclose = match_close(mask, bopen)
+        le = txt.find('\n', pos)
+        body = txt[le + 1:bclose]
+        notes = Notes()
+        notes.add('R12', 'lifted tail of the block after `%s` of %s as fn %s%s' % (frm[0], qual, name, params))
+        fn_txt = 'pub fn %s%s {\n%s}' % (name, params, body)
+        rules = [r for r in DEFAULT_RULES if r not in (s.opt('skip') or '').split(',')]
+        fn_txt = apply_rules(fn_txt, rules, notes, self.extra_log_macros)
+        fn_txt = self._apply_substs(fn_txt, s, notes)
+        rewritten = fn_txt
+        sub = Section('fn', [rel, name] + [a for a in s.args[2:]], s.lineno)
+        sub.subs = [x for x in s.subs if x[0] not in ('from', 'params')]
+        fn_txt, has_contract = weave(fn_txt, sub, notes, canary)
+        if canary:
+            fn_txt = re.sub(r'\bfn\s+' + re.escape(name) + r'\b', 'fn ' + name + '__canary', fn_txt, count=1)
+        props = (s.opt('props') or '').split(',') if s.opt('props') else []
+        desc = sp.describe()
+        it = Item(name, 'fn', fn_txt, props=props, origin=desc, notes=notes, src_text=sp.text)
+        it.rewritten = rewritten
+        it.has_contract = has_contract
+        it.verus_name = '%s::%s' % (self.crate_name, name)
+        it.is_canary = canary
+        if canary:
+            it.verus_name += '__canary'
+            it.label = name + '__canary'
         return it
 
     # ------------------------------------------------------------------------------------
